@@ -22,9 +22,10 @@ func init() {
 			"Added after blind round 5: MemTablePool.Put/Delete write the active table with the pool lock held; the comparator does not subtract sequence numbers. " +
 			"Added after blind round 6: the read accessors MemTable.Get, Iterator.Key, Iterator.Value (and transaction.Buffer.Get) return nil or freshly allocated bytes on every exit (tree defect in MemTable.Get, repaired: 3d66abb). " +
 			"Added after blind round 7: the adapter-seek rule of C05. " +
-			"Added after blind round 10: no try-lock fallbacks (an iterator created from a remembered snapshot while the writer holds the lock starts behind writes that have returned).",
+			"Added after blind round 10: no try-lock fallbacks (an iterator created from a remembered snapshot while the writer holds the lock starts behind writes that have returned). " +
+			"Added after blind round 11: the module's []byte copy helpers keep an empty input empty and non-nil.",
 		NotDecided: "what concurrent readers observe under all interleavings (needs schedules); memory-model arguments beyond 'links are atomic.Pointer and published after initialisation'.",
-		Rules:      []func(*Ctx, *Reporter){ruleMemComparator, ruleMemFind, ruleMemInsert, ruleMemImmutableFields, ruleMemSingleWriter, ruleMemImmutable, ruleMemVisibility, ruleMemTableGetTable, rulePoolWritesUnderPoolLock, ruleComparatorNoSubtraction, ruleAccessorsReturnCopies, ruleAdapterSeekAlwaysSeeks, ruleNoTryLockFallbacks},
+		Rules:      []func(*Ctx, *Reporter){ruleMemComparator, ruleMemFind, ruleMemInsert, ruleMemImmutableFields, ruleMemSingleWriter, ruleMemImmutable, ruleMemVisibility, ruleMemTableGetTable, rulePoolWritesUnderPoolLock, ruleComparatorNoSubtraction, ruleAccessorsReturnCopies, ruleAdapterSeekAlwaysSeeks, ruleNoTryLockFallbacks, ruleCopyHelpersKeepEmptyNonNil},
 	})
 }
 
